@@ -217,11 +217,20 @@ void Exec::op_param(Client &c) {
 	else if (what == "display") { int val = modn(v, 4); rv = mpq_QSset_param(o->p, QS_PARAM_SIMPLEX_DISPLAY, val); o->iparam[QS_PARAM_SIMPLEX_DISPLAY] = val; }
 	else if (what == "scaling") { int val = modn(v, 2); rv = mpq_QSset_param(o->p, QS_PARAM_SIMPLEX_SCALING, val); o->iparam[QS_PARAM_SIMPLEX_SCALING] = val; }
 	else if (what == "precision") { static const unsigned pr[] = {64, 128, 192, 256, 512, 1024}; cur_precision = pr[modn(v, 6)]; QSexact_set_precision(cur_precision); }
+	else if (what == "maxiter") { int val = 200000 + (int)modn(v, 1000) * 13; rv = mpq_QSset_param(o->p, QS_PARAM_SIMPLEX_MAX_ITERATIONS, val); o->iparam[QS_PARAM_SIMPLEX_MAX_ITERATIONS] = val; o->limits_default = false; }
+	else if (what == "maxtime" || what == "objulim" || what == "objllim") {   // limits far beyond anything a run meets: they are parameters a copy has to carry (C16) and a getter has to give back (C06)
+		int w = what == "maxtime" ? QS_PARAM_SIMPLEX_MAX_TIME : what == "objulim" ? QS_PARAM_OBJULIM : QS_PARAM_OBJLLIM;
+		Q val = what == "maxtime" ? Q(400000 + modn(v, 1000)) : Q(0); if (what != "maxtime") { mpz_class big; mpz_ui_pow_ui(big.get_mpz_t(), 10, 140); val = Q(big) + modn(v, 1000); if (what == "objllim") val = -val; }
+		QArr t(2); mpq_set(t.at(0), val.get_mpq_t()); rv = mpq_QSset_param_EGlpNum(o->p, w, t.at(0)); o->limits_default = false;
+		after_lib_call("param"); T(strf("  param %s rv=%d", what.c_str(), rv));
+		if (rv) violate("C06", "setparam-failed:" + what, "valid parameter value rejected");
+		else if (mpq_QSget_param_EGlpNum(o->p, w, t.ptr(1)) || lib_to_q(t.at(1)) != val) violate("C06", "getparam-mismatch:" + what, "set " + qstr(val) + ", read back " + qstr(lib_to_q(t.at(1))));
+		signature("param:" + what); return; }
 	else { T("  unknown param (skipped)"); return; }
 	after_lib_call("param");
 	T(strf("  param %s rv=%d", what.c_str(), rv));
 	if (rv) violate("C06", "setparam-failed:" + what, "valid parameter value rejected");
-	else if (what != "precision") { int w = what == "pprice" ? QS_PARAM_PRIMAL_PRICING : what == "dprice" ? QS_PARAM_DUAL_PRICING : what == "display" ? QS_PARAM_SIMPLEX_DISPLAY : QS_PARAM_SIMPLEX_SCALING;
+	else if (what != "precision") { int w = what == "pprice" ? QS_PARAM_PRIMAL_PRICING : what == "dprice" ? QS_PARAM_DUAL_PRICING : what == "display" ? QS_PARAM_SIMPLEX_DISPLAY : what == "maxiter" ? QS_PARAM_SIMPLEX_MAX_ITERATIONS : QS_PARAM_SIMPLEX_SCALING;
 		int got = -1; if (mpq_QSget_param(o->p, w, &got) || got != o->iparam[w]) violate("C06", "getparam-mismatch:" + what, strf("set %d, read back %d", o->iparam[w], got)); }
 	signature("param:" + what);
 }
